@@ -69,8 +69,6 @@ func addLink(ctx context.Context, ds ipld.DAGService, root *dag.ProtoNode, child
 		return nil, err
 	}
 
-	_ = ds.Remove(ctx, root.Cid())
-
 	// ensure no link with that name already exists
 	_ = root.RemoveNodeLink(childname) // ignore error, only option is ErrNotFound
 
@@ -123,8 +121,8 @@ func (e *Editor) insertNodeAtPath(ctx context.Context, root *dag.ProtoNode, path
 		return nil, err
 	}
 
-	_ = e.tmp.Remove(ctx, root.Cid())
-
+	// The previous version of root is left in e.tmp: deleting it by CID could
+	// delete a rewritten descendant that happens to have the same content.
 	_ = root.RemoveNodeLink(path[0])
 	err = root.AddNodeLink(path[0], ndprime)
 	if err != nil {
@@ -181,8 +179,6 @@ func (e *Editor) rmLink(ctx context.Context, root *dag.ProtoNode, path []string)
 	if err != nil {
 		return nil, err
 	}
-
-	_ = e.tmp.Remove(ctx, root.Cid())
 
 	_ = root.RemoveNodeLink(path[0])
 	err = root.AddNodeLink(path[0], nnode)
